@@ -188,6 +188,7 @@ func isClosed(s *sim, x int) bool {
 	if err == nil {
 		s.mu.Lock()
 		s.recvMsgs[x] = append(s.recvMsgs[x], append([]byte{}, b...))
+		s.recvRaw[x] = append(s.recvRaw[x], b)
 		s.mu.Unlock()
 		s.l.ev("RR %d ok %s", x, hx(b))
 		return false
